@@ -455,7 +455,8 @@ class WSDiscovery:
     def _handle_received_probe(self, received_message: ReceivedMessage, addr_from: str):
         probe = wsd_types.ProbeType.from_node(received_message.p_msg.msg_node)
         scopes = probe.Scopes
-        services = filter_services(self._local_services.values(), probe.Types, scopes)
+        # a list: publish_service / clear_service of the application thread may change the dictionary meanwhile
+        services = filter_services(list(self._local_services.values()), probe.Types, scopes)
         if services:
             self._send_probe_match(services, received_message.p_msg.header_info_block.MessageID, addr_from)
         if self._on_probe_callback is not None:
